@@ -470,7 +470,7 @@ Qed.
 Lemma rem_of_intro new cur sv e v o : effect_of (snd sv) = Some e -> dget new e = Some v -> fst v = fst sv ->
   dget cur e = Some o -> snd o <> snd sv -> In (snd o) (rem_of new cur sv).
 Proof.
-  intros H1 H2 H3 H4 H5. unfold rem_of. rewrite H1. cbv iota beta. rewrite H2. cbv iota beta.
+  intros H1 H2 H3 H4 H5. unfold rem_of, vset in *. rewrite H1. cbv iota beta. rewrite H2. cbv iota beta.
   rewrite H3, Nat.eqb_refl, H4. apply str_eqb_neq in H5. rewrite H5. now left.
 Qed.
 
@@ -488,7 +488,7 @@ Qed.
 Lemma app_of_intro new cur sv e v : effect_of (snd sv) = Some e -> dget new e = Some v -> fst v = fst sv ->
   (dget cur e = None \/ exists o, dget cur e = Some o /\ snd o <> snd sv) -> In (snd sv) (app_of new cur sv).
 Proof.
-  intros H1 H2 H3 H4. unfold app_of. rewrite H1. cbv iota beta. rewrite H2. cbv iota beta.
+  intros H1 H2 H3 H4. unfold app_of, vset in *. rewrite H1. cbv iota beta. rewrite H2. cbv iota beta.
   rewrite H3, Nat.eqb_refl.
   destruct H4 as [-> | (o & -> & H5)]; [now left|]. apply str_eqb_neq in H5. rewrite H5. now left.
 Qed.
@@ -613,3 +613,688 @@ Proof.
       * apply in_or_app. right. apply in_or_app. right. now apply in_map.
 Qed.
 End Step.
+
+(* ====================================================================================== *)
+(* 7. Identities: every marker of a well-formed table belongs to a setting that is active    *)
+(*    somewhere, so a bound on the active identities bounds all identities                   *)
+(* ====================================================================================== *)
+Definition ids_lt (t : fmts) (n : nat) : Prop := forall k x, In x (active_at t k) -> sid x < n.
+
+Lemma strict_rems_in r : forall A, strict_rems r A <> None -> forall x, In x r -> In (sid x) (ids A).
+Proof.
+  induction r as [|y r IH]; intros A H x Hx; [destruct Hx|]. cbn [strict_rems] in H.
+  destruct (in_ref y A) eqn:E; [|congruence].
+  destruct Hx as [<-|Hx]; [now apply in_ref_ids|]. eapply remove_ref_ids_subset. apply (IH _ H x Hx).
+Qed.
+
+Lemma all_ids_from (P : nat -> Prop) t : ssorted t -> forall A, strict_run t A ->
+  (forall i x, In x (active_upto t i A) -> P (sid x)) -> (forall x, In x A -> P (sid x)) ->
+  forall j, In j (all_ids t) -> P j.
+Proof.
+  induction 1 as [|k p t Hk Hs IH]; intros A Hst Hact HA j Hj; [destruct Hj|].
+  cbn [strict_run] in Hst. destruct Hst as [Hst1 Hst2].
+  assert (Hstep : forall x, In x (step A p) -> P (sid x)).
+  { intros x Hx. apply (Hact k). cbn [active_upto]. rewrite Nat.leb_refl. rewrite active_upto_all_gt; auto. }
+  unfold all_ids in Hj. cbn [flat_map snd] in Hj. apply in_app_or in Hj as [Hj|Hj].
+  - apply in_app_or in Hj as [Hj|Hj].
+    + apply in_ids_inv in Hj as (y & Hy & <-). apply Hstep. rewrite step_rmall. apply in_or_app. now right.
+    + apply in_ids_inv in Hj as (y & Hy & <-). pose proof (strict_rems_in _ _ Hst1 y Hy) as Hin.
+      apply in_ids_inv in Hin as (z & Hz & Ez). rewrite <- Ez. now apply HA.
+  - apply (IH (step A p) Hst2); auto. intros i x Hx. destruct (k <=? i) eqn:E.
+    + apply (Hact i). cbn [active_upto]. now rewrite E.
+    + apply Nat.leb_gt in E. rewrite active_upto_all_gt in Hx; auto.
+      intros kp Hin. specialize (Hk kp Hin). lia.
+Qed.
+
+(* every identity occurring anywhere in a well-formed table is the identity of a setting that is
+   active at some index *)
+Lemma all_ids_active (P : nat -> Prop) s : rm_wf s ->
+  (forall k x, In x (active_at (tbl s) k) -> P (sid x)) -> forall j, In j (all_ids (tbl s)) -> P j.
+Proof.
+  intros (Hs & _ & Hst & _) Hids. apply (all_ids_from P (tbl s) Hs []).
+  - now apply strict_ok_from_run.
+  - intros i x Hx. exact (Hids i x Hx).
+  - intros x [].
+Qed.
+
+Lemma all_ids_lt s n : rm_wf s -> ids_lt (tbl s) n -> forall j, In j (all_ids (tbl s)) -> j < n.
+Proof. intros Hwf Hids. exact (all_ids_active (fun j => j < n) s Hwf Hids). Qed.
+
+Lemma fresh_fresh s n texts m : rm_wf s -> ids_lt (tbl s) n -> n <= m -> fresh_for (fst (fresh texts m)) (tbl s).
+Proof.
+  intros Hwf Hids Hle. split.
+  - rewrite fresh_ids. apply seq_NoDup.
+  - intros x Hx Hin. pose proof (all_ids_lt s n Hwf Hids _ Hin) as Hlt.
+    assert (Hs : In (sid x) (ids (fst (fresh texts m)))) by now apply in_ids.
+    rewrite fresh_ids in Hs. apply in_seq in Hs. lia.
+Qed.
+
+(* ====================================================================================== *)
+(* 8. The two table operations of one step, from [key] to the end of the text                *)
+(* ====================================================================================== *)
+Lemma slice_idx_nat len key : key < len -> slice_idx len (Some (Z.of_nat key)) 0 = key.
+Proof.
+  intros H. unfold slice_idx. destruct (Z.ltb_spec (Z.of_nat key) 0); [lia|].
+  rewrite Z.min_l by lia. apply Nat2Z.id.
+Qed.
+
+Lemma range_ok len key : key < len ->
+  range_empty len (slice_idx len (Some (Z.of_nat key)) 0) (slice_idx len None len) = false.
+Proof.
+  intros H. rewrite slice_idx_nat by exact H. unfold range_empty, slice_idx.
+  apply orb_false_iff. split; apply Nat.leb_gt; lia.
+Qed.
+
+(* the two operations create change points only at the bounds of their range *)
+Definition keys_in (t t0 : fmts) (a b : nat) : Prop :=
+  forall kp, In kp t -> fst kp = a \/ fst kp = b \/ In (fst kp) (map fst t0).
+
+Lemma remove_loop_keys states : forall len start en sel rd,
+  map fst (remove_loop states len start en sel rd) = map (fun x => fst (fst x)) states.
+Proof.
+  induction states as [|[[k p] cur] r IH]; intros len start en sel rd; [reflexivity|].
+  cbn [remove_loop map fst].
+  destruct (k <? start); [cbn [map fst]; now rewrite IH|].
+  destruct (en <? k). { cbn [map fst]. f_equal. rewrite map_map. reflexivity. }
+  destruct (Nat.eqb k start).
+  { destruct (remove_at_start sel cur p rd) as [p' rd']. cbn [map fst]. now rewrite IH. }
+  destruct (rem_pass (prem p) rd) as [rem' rd1].
+  destruct (Nat.eqb k en); [cbn [map fst]; now rewrite IH|].
+  destruct (add_pass sel (padd p) rd1) as [add' rd2]. cbn [map fst]. now rewrite IH.
+Qed.
+
+Lemma iter_states_keys t : forall A, map (fun x => fst (fst x)) (iter_states t A) = map fst t.
+Proof. induction t as [|[k p] r IH]; intros A; cbn [iter_states map fst]; [reflexivity|]. now rewrite IH. Qed.
+
+Lemma tensure_keys k t x : In x (tensure k t) -> fst x = k \/ In x t.
+Proof. unfold tensure. destruct (tmem k t); auto. intros H. apply In_tput in H as [->|H]; auto. Qed.
+
+Lemma remove_core_keys_in s sel start en : keys_in (tbl (remove_core s sel start en)) (tbl s) start en.
+Proof.
+  intros kp Hin. unfold remove_core in Hin. cbn [tbl] in Hin. unfold cleanup in Hin. apply filter_In in Hin as [Hin _].
+  apply (in_map fst) in Hin. rewrite remove_loop_keys, iter_states_keys in Hin.
+  apply in_map_iff in Hin as (x & Ex & Hx). rewrite <- Ex.
+  apply tensure_keys in Hx as [Hx|Hx]; [right; now left|]. apply tensure_keys in Hx as [Hx|Hx]; [now left|].
+  right. right. now apply in_map.
+Qed.
+
+Lemma apply_core_keys_in s new start en top : ssorted (tbl s) -> start < en ->
+  keys_in (tbl (apply_core s new start en top)) (tbl s) start en.
+Proof.
+  intros Hs Hlt kp Hin. rewrite apply_core_tbl in Hin by assumption. rewrite <- tput_tput_shape in Hin by assumption.
+  apply In_tput in Hin as [->|Hin]; [right; now left|]. apply In_tput in Hin as [->|Hin]; [now left|].
+  right. right. now apply in_map.
+Qed.
+
+(* no change point strictly between [key] and the end of the text *)
+Definition no_mid (s : astr) (key : nat) : Prop :=
+  forall kp, In kp (tbl s) -> fst kp <= key \/ length (base s) <= fst kp.
+
+Lemma no_mid_keys_in s r key : base r = base s -> key < length (base s) ->
+  keys_in (tbl r) (tbl s) key (length (base s)) -> no_mid s key -> no_mid r key.
+Proof.
+  intros Hb Hkey Hk Hn kp Hin. rewrite Hb. destruct (Hk kp Hin) as [E|[E|Hi]]; [lia|lia|].
+  apply in_map_iff in Hi as (kp' & E & Hin'). rewrite <- E. now apply Hn.
+Qed.
+
+Lemma step_remove s sel key : rm_wf s -> key < length (base s) ->
+  let r := if is_nil sel then s else remove_fmt s (Some sel) (Some (Z.of_nat key)) None in
+  base r = base s /\ rm_wf r
+  /\ (forall k, k < key -> active_at (tbl r) k = active_at (tbl s) k)
+  /\ (forall k, key <= k < length (base s) -> active_at (tbl r) k = keep (Some sel) (active_at (tbl s) k))
+  /\ (forall k, length (base s) <= k -> active_at (tbl r) k = active_at (tbl s) k)
+  /\ (no_mid s key -> no_mid r key).
+Proof.
+  intros Hwf Hkey. destruct sel as [|a sel]; cbn [is_nil].
+  - split; [reflexivity|]. split; [exact Hwf|]. split; [reflexivity|]. split; [|split; [reflexivity|auto]].
+    intros k _. symmetry. apply keep_id. reflexivity.
+  - pose proof (remove_fmt_spec s (Some (a :: sel)) (Some (Z.of_nat key)) None) as H. cbv zeta in H.
+    specialize (H Hwf (range_ok _ _ Hkey)).
+    destruct (remove_fmt_core s (Some (a :: sel)) (Some (Z.of_nat key)) None (range_ok _ _ Hkey)) as (Er & _).
+    rewrite (slice_idx_nat _ _ Hkey) in H, Er.
+    change (slice_idx (length (base s)) None (length (base s))) with (length (base s)) in H, Er.
+    destruct H as (H1 & H2 & H3 & H4 & H5).
+    split; [exact H1|]. split; [exact H5|]. split; [exact H2|]. split; [exact H3|]. split; [exact H4|].
+    apply no_mid_keys_in; auto. rewrite Er. apply remove_core_keys_in.
+Qed.
+
+Lemma step_apply s news key : rm_wf s -> fresh_for news (tbl s) -> key < length (base s) ->
+  let r := apply_fmt s news (Some (Z.of_nat key)) None true in
+  base r = base s /\ rm_wf r
+  /\ (forall k, k < key \/ length (base s) <= k -> active_at (tbl r) k = active_at (tbl s) k)
+  /\ (forall k, key <= k < length (base s) ->
+      exists l1 l2, active_at (tbl s) k = l1 ++ l2 /\ active_at (tbl r) k = l1 ++ news ++ l2
+                    /\ ((forall kp, In kp (tbl s) -> key < fst kp <= k -> padd (snd kp) = []) -> l2 = []))
+  /\ (no_mid s key -> no_mid r key).
+Proof.
+  intros (Hs & Hnd & Hst & Hk & Hf) Hfr Hkey r.
+  assert (Hb : base r = base s) by apply apply_fmt_base.
+  split; [exact Hb|]. split; [|split; [|split]].
+  - split; [now apply apply_fmt_sorted|]. split; [now apply apply_fmt_nodup|].
+    split; [now apply apply_fmt_strict|]. split.
+    + rewrite Hb. now apply apply_fmt_keys.
+    + unfold r. rewrite apply_fmt_final; auto.
+  - intros k Hkk. apply apply_fmt_outside; auto.
+    rewrite (slice_idx_nat _ _ Hkey). exact Hkk.
+  - intros k Hkk. destruct news as [|x news].
+    + exists (active_at (tbl s) k), []. unfold r. rewrite apply_fmt_noop_settings. now rewrite !app_nil_r.
+    + destruct (apply_fmt_inside_top s (x :: news) (Some (Z.of_nat key)) None true Hs Hfr ltac:(discriminate)
+                  (range_ok _ _ Hkey) eq_refl k) as (l1 & l2 & E1 & E2 & _ & _ & E5).
+      { rewrite (slice_idx_nat _ _ Hkey). exact Hkk. }
+      rewrite (slice_idx_nat _ _ Hkey) in E5. exists l1, l2. auto.
+  - destruct (apply_fmt_cases s news (Some (Z.of_nat key)) None true) as [E|(E & H1 & H2)]; fold r in E.
+    + now rewrite E.
+    + rewrite (slice_idx_nat _ _ Hkey) in E, H1.
+      change (slice_idx (length (base s)) None (length (base s))) with (length (base s)) in E, H1.
+      apply no_mid_keys_in; auto. rewrite E. now apply apply_core_keys_in.
+Qed.
+
+(* ====================================================================================== *)
+(* 9. The loop invariant                                                                    *)
+(* ====================================================================================== *)
+(* (a) the value is well formed and all identities in it are below the allocation counter;
+   (c) the dictionary is in order; (b)+(c) from [key] to the end of the text the active settings are
+   exactly the entries of the dictionary, one text per effect; (b) no change point lies strictly
+   between [key] and the end of the text *)
+Definition PInv (s : astr) (cur : dict vset) (key nid : nat) : Prop :=
+  rm_wf s /\ ids_lt (tbl s) nid /\ cur_ok cur
+  /\ (forall k, key <= k < length (base s) -> Rep cur (active_at (tbl s) k))
+  /\ no_mid s key.
+
+Theorem PInv_init text nid : PInv (mkA text []) [] 0 nid.
+Proof.
+  split; [|split; [|split; [|split]]].
+  - unfold rm_wf. cbn [tbl base]. split; [constructor|]. split; [intros k; constructor|].
+    split; [reflexivity|]. split; [intros kp []|reflexivity].
+  - intros k x [].
+  - split; [constructor|]. intros e i t H. discriminate H.
+  - intros k _. cbn [tbl]. split; [intros x []|]. intros e i t H. discriminate H.
+  - intros kp [].
+Qed.
+
+Theorem PInv_mono s cur key key' nid nid' : PInv s cur key nid -> key <= key' -> nid <= nid' -> PInv s cur key' nid'.
+Proof.
+  intros (H1 & H2 & H3 & H4 & H5) Hk Hn. split; auto. split; [|split; [auto|split]].
+  - intros k x Hx. specialize (H2 k x Hx). lia.
+  - intros k Hkk. apply H4. lia.
+  - intros kp Hin. destruct (H5 kp Hin); [left; lia|now right].
+Qed.
+
+(* (d) *)
+Corollary PInv_style s cur key nid k : PInv s cur key nid -> key <= k < length (base s) ->
+  teq (style_of (map stxt (active_at (tbl s) k))) (as_t' cur).
+Proof. intros (_ & _ & H3 & H4 & _) Hk. apply Rep_style; auto. Qed.
+
+(* (b): everything that is active at [key] stays active, unchanged, up to the end of the text *)
+Corollary PInv_const s cur key nid k : PInv s cur key nid -> key <= k < length (base s) ->
+  active_at (tbl s) k = active_at (tbl s) key.
+Proof.
+  intros ((Hs & _) & _ & _ & _ & H5) Hk. rewrite !active_at_run by exact Hs. f_equal.
+  unfold upto. apply filter_ext_in. intros kp Hin.
+  destruct (H5 kp Hin) as [H|H].
+  - transitivity true; [|symmetry]; apply Nat.leb_le; lia.
+  - transitivity false; [|symmetry]; apply Nat.leb_gt; lia.
+Qed.
+
+Theorem parse_step_inv s cur key body nid : PInv s cur key nid -> key < length (base s) ->
+  let r := parse_step s cur key body nid in
+  PInv (fst (fst r)) (snd (fst r)) key (snd r) /\ nid <= snd r /\ base (fst (fst r)) = base s
+  /\ (forall k, k < key -> active_at (tbl (fst (fst r))) k = active_at (tbl s) k).
+Proof.
+  intros (Hwf & Hids & Hcur & Hrep & Hmid) Hkey r.
+  destruct (pgs_str_ok body) as (texts & Hp). pose proof (pgs_str_texts body texts Hp) as Htx.
+  unfold r. rewrite (parse_step_unfold _ _ _ _ _ _ Hp). cbv zeta. cbn [fst snd].
+  set (to_rem := step_rem cur nid texts). set (to_app := step_app cur nid texts).
+  pose proof (step_remove s to_rem key Hwf Hkey) as H1. cbv zeta in H1.
+  set (s1 := if is_nil to_rem then s else remove_fmt s (Some to_rem) (Some (Z.of_nat key)) None) in *.
+  destruct H1 as (Hb1 & Hwf1 & Hlo1 & Hin1 & Hhi1 & Hmid1).
+  assert (Hids1 : ids_lt (tbl s1) nid).
+  { intros k x Hx. destruct (lt_dec k key) as [Hl|Hl]; [rewrite Hlo1 in Hx by lia; eauto|].
+    destruct (lt_dec k (length (base s))) as [Hl2|Hl2].
+    - rewrite Hin1 in Hx by lia. apply keep_in in Hx as [Hx _]. eauto.
+    - rewrite Hhi1 in Hx by lia. eauto. }
+  set (nid1 := nid + length texts). set (news := fst (fresh to_app nid1)).
+  assert (Hfr : fresh_for news (tbl s1)) by (apply fresh_fresh with nid; auto; unfold nid1; lia).
+  assert (Hkey1 : key < length (base s1)) by (rewrite Hb1; auto).
+  pose proof (step_apply s1 news key Hwf1 Hfr Hkey1) as H2. cbv zeta in H2.
+  set (s2 := apply_fmt s1 news (Some (Z.of_nat key)) None true) in *.
+  destruct H2 as (Hb2 & Hwf2 & Hout2 & Hin2 & Hmid2). rewrite Hb1 in Hout2, Hin2.
+  split; [|split; [unfold nid1; lia|split; [congruence|]]].
+  - split; [exact Hwf2|]. split; [|split; [now apply cur_ok_step|split; [|auto]]].
+    + intros k x Hx.
+      assert (Hnews : forall y, In y news -> sid y < nid1 + length to_app).
+      { intros y Hy. assert (Hs : In (sid y) (ids news)) by now apply in_ids.
+        unfold news in Hs. rewrite fresh_ids in Hs. apply in_seq in Hs. lia. }
+      destruct (lt_dec k key) as [Hl|Hl].
+      { rewrite Hout2 in Hx by lia. specialize (Hids1 k x Hx). unfold nid1. lia. }
+      destruct (lt_dec k (length (base s))) as [Hl2|Hl2].
+      * destruct (Hin2 k ltac:(lia)) as (l1 & l2 & E1 & E2 & _). rewrite E2 in Hx.
+        assert (Hold : In x (l1 ++ l2) -> sid x < nid1 + length to_app).
+        { intros Hi. rewrite <- E1 in Hi. specialize (Hids1 k x Hi). unfold nid1. lia. }
+        apply in_app_or in Hx as [Hx|Hx]; [apply Hold; apply in_or_app; now left|].
+        apply in_app_or in Hx as [Hx|Hx]; [now apply Hnews|apply Hold; apply in_or_app; now right].
+      * rewrite Hout2 in Hx by lia. specialize (Hids1 k x Hx). unfold nid1. lia.
+    + intros k Hk. rewrite Hb2, Hb1 in Hk. destruct (Hin2 k Hk) as (l1 & l2 & E1 & E2 & _). rewrite E2.
+      apply (Rep_step cur nid texts Hcur (active_at (tbl s) k)); auto.
+      * rewrite <- E1. symmetry. now apply Hin1.
+      * apply fresh_texts.
+  - intros k Hk. rewrite Hout2 by lia. apply Hlo1. exact Hk.
+Qed.
+
+(* every setting active after the step was active before it or is freshly allocated *)
+Theorem parse_step_active_in s cur key body nid : PInv s cur key nid -> key < length (base s) ->
+  let r := parse_step s cur key body nid in
+  forall k x, In x (active_at (tbl (fst (fst r))) k) ->
+    In x (active_at (tbl s) k) \/ nid <= sid x < snd r.
+Proof.
+  intros (Hwf & Hids & Hcur & Hrep & Hmid) Hkey r.
+  destruct (pgs_str_ok body) as (texts & Hp).
+  unfold r. rewrite (parse_step_unfold _ _ _ _ _ _ Hp). cbv zeta. cbn [fst snd].
+  set (to_rem := step_rem cur nid texts). set (to_app := step_app cur nid texts).
+  pose proof (step_remove s to_rem key Hwf Hkey) as H1. cbv zeta in H1.
+  set (s1 := if is_nil to_rem then s else remove_fmt s (Some to_rem) (Some (Z.of_nat key)) None) in *.
+  destruct H1 as (Hb1 & Hwf1 & Hlo1 & Hin1 & Hhi1 & Hmid1).
+  assert (Hsub1 : forall k x, In x (active_at (tbl s1) k) -> In x (active_at (tbl s) k)).
+  { intros k x Hx. destruct (lt_dec k key) as [Hl|Hl]; [now rewrite Hlo1 in Hx by lia|].
+    destruct (lt_dec k (length (base s))) as [Hl2|Hl2].
+    - rewrite Hin1 in Hx by lia. now apply keep_in in Hx as [Hx _].
+    - now rewrite Hhi1 in Hx by lia. }
+  assert (Hids1 : ids_lt (tbl s1) nid) by (intros k x Hx; eauto).
+  set (nid1 := nid + length texts). set (news := fst (fresh to_app nid1)).
+  assert (Hfr : fresh_for news (tbl s1)) by (apply fresh_fresh with nid; auto; unfold nid1; lia).
+  assert (Hkey1 : key < length (base s1)) by (rewrite Hb1; auto).
+  pose proof (step_apply s1 news key Hwf1 Hfr Hkey1) as H2. cbv zeta in H2.
+  set (s2 := apply_fmt s1 news (Some (Z.of_nat key)) None true) in *.
+  destruct H2 as (Hb2 & Hwf2 & Hout2 & Hin2 & Hmid2). rewrite Hb1 in Hout2, Hin2.
+  intros k x Hx.
+  assert (Hnews : forall y, In y news -> nid <= sid y < nid1 + length to_app).
+  { intros y Hy. assert (Hs : In (sid y) (ids news)) by now apply in_ids.
+    unfold news in Hs. rewrite fresh_ids in Hs. apply in_seq in Hs. unfold nid1 in *. lia. }
+  destruct (lt_dec k key) as [Hl|Hl]; [rewrite Hout2 in Hx by lia; auto|].
+  destruct (lt_dec k (length (base s))) as [Hl2|Hl2]; [|rewrite Hout2 in Hx by lia; auto].
+  destruct (Hin2 k ltac:(lia)) as (l1 & l2 & E1 & E2 & _). rewrite E2 in Hx.
+  assert (Hold : In x (l1 ++ l2) -> In x (active_at (tbl s) k)) by (intros Hi; rewrite <- E1 in Hi; auto).
+  apply in_app_or in Hx as [Hx|Hx]; [left; apply Hold; apply in_or_app; now left|].
+  apply in_app_or in Hx as [Hx|Hx]; [right; now apply Hnews|left; apply Hold; apply in_or_app; now right].
+Qed.
+
+(* ====================================================================================== *)
+(* 10. The loop over the removed sequences                                                   *)
+(* ====================================================================================== *)
+Definition parse_fold (text : str) (seqs : list (nat * cseq)) (st : astr * dict vset * nat) : astr * dict vset * nat :=
+  fold_left (fun '(s, cur, nid) kq =>
+               if length text <=? fst kq then (s, cur, nid)
+               else parse_step s cur (fst kq) (cs_body (snd kq)) nid) seqs st.
+
+Lemma parse_eq w nid :
+  parse w nid
+  = let toks := tokenize false (Some [CH_m]) w in
+    let r := parse_fold (unformatted toks) (seqs_flat toks 0) (mkA (unformatted toks) [], [], nid) in
+    (fst (fst r), snd r).
+Proof.
+  unfold parse, parse_fold. cbv zeta. rewrite sequences_flat.
+  destruct (fold_left _ _ _) as [[s c] n]. reflexivity.
+Qed.
+
+Lemma parse_fold_cons text kq r s cur nid :
+  parse_fold text (kq :: r) (s, cur, nid)
+  = parse_fold text r (if length text <=? fst kq then (s, cur, nid)
+                       else parse_step s cur (fst kq) (cs_body (snd kq)) nid).
+Proof. reflexivity. Qed.
+
+(* structural part: no hypothesis on the input *)
+Lemma parse_loop_wf text : forall l pos s cur nid,
+  PInv s cur pos nid -> base s = text ->
+  let r := parse_fold text (seqs_flat l pos) (s, cur, nid) in
+  (exists cur' pos', PInv (fst (fst r)) cur' pos' (snd r))
+  /\ base (fst (fst r)) = text /\ nid <= snd r
+  /\ (forall k, k < pos -> active_at (tbl (fst (fst r))) k = active_at (tbl s) k).
+Proof.
+  induction l as [|[c|q] l IH]; intros pos s cur nid Hinv Hb.
+  - cbn. split; [eauto|]. auto.
+  - cbn [seqs_flat]. destruct (IH (Datatypes.S pos) s cur nid) as (H1 & H2 & H3 & H4); auto.
+    { eapply PInv_mono; eauto. }
+    split; [exact H1|]. split; [exact H2|]. split; [exact H3|]. intros k Hk. apply H4. lia.
+  - cbn [seqs_flat]. cbv zeta. rewrite parse_fold_cons. cbn [fst snd].
+    destruct (length text <=? pos) eqn:E; [now apply IH|]. apply Nat.leb_gt in E.
+    pose proof (parse_step_inv s cur pos (cs_body q) nid Hinv ltac:(now rewrite Hb)) as Hst. cbv zeta in Hst.
+    destruct (parse_step s cur pos (cs_body q) nid) as [[s1 cur1] nid1]. cbn [fst snd] in Hst.
+    destruct Hst as (Hinv1 & Hn1 & Hb1 & Hlo1).
+    destruct (IH pos s1 cur1 nid1 Hinv1 ltac:(congruence)) as (H1 & H2 & H3 & H4).
+    split; [exact H1|]. split; [exact H2|]. split; [lia|]. intros k Hk. rewrite H4 by exact Hk. now apply Hlo1.
+Qed.
+
+(* 4: the constructed value is well formed, whatever the input; identities are allocated upwards *)
+Theorem parse_wf w nid :
+  rm_wf (fst (parse w nid)) /\ nid <= snd (parse w nid) /\ ids_lt (tbl (fst (parse w nid))) (snd (parse w nid)).
+Proof.
+  rewrite parse_eq. cbv zeta. cbn [fst snd].
+  set (toks := tokenize false (Some [CH_m]) w).
+  destruct (parse_loop_wf (unformatted toks) toks 0 (mkA (unformatted toks) []) [] nid (PInv_init _ _) eq_refl)
+    as ((cur' & pos' & (H1 & H2 & _)) & _ & H3 & _).
+  auto.
+Qed.
+
+(* upper bound on the identities in the value *)
+Corollary parse_ids w nid : forall j, In j (all_ids (tbl (fst (parse w nid)))) -> j < snd (parse w nid).
+Proof. destruct (parse_wf w nid) as (H1 & _ & H3). now apply all_ids_lt. Qed.
+
+Lemma parse_loop_ge text lo : forall l pos s cur nid,
+  PInv s cur pos nid -> base s = text -> lo <= nid ->
+  (forall k x, In x (active_at (tbl s) k) -> lo <= sid x) ->
+  forall k x, In x (active_at (tbl (fst (fst (parse_fold text (seqs_flat l pos) (s, cur, nid))))) k) -> lo <= sid x.
+Proof.
+  induction l as [|[c|q] l IH]; intros pos s cur nid Hinv Hb Hlo Hge.
+  - exact Hge.
+  - cbn [seqs_flat]. apply (IH (Datatypes.S pos) s cur nid); auto. eapply PInv_mono; eauto.
+  - cbn [seqs_flat]. rewrite parse_fold_cons. cbn [fst snd].
+    destruct (length text <=? pos) eqn:E; [now apply IH|]. apply Nat.leb_gt in E.
+    pose proof (parse_step_inv s cur pos (cs_body q) nid Hinv ltac:(now rewrite Hb)) as Hst. cbv zeta in Hst.
+    pose proof (parse_step_active_in s cur pos (cs_body q) nid Hinv ltac:(now rewrite Hb)) as Hact. cbv zeta in Hact.
+    destruct (parse_step s cur pos (cs_body q) nid) as [[s1 cur1] nid1]. cbn [fst snd] in Hst, Hact.
+    destruct Hst as (Hinv1 & Hn1 & Hb1 & Hlo1).
+    apply (IH pos s1 cur1 nid1 Hinv1); [congruence|lia|].
+    intros k x Hx. destruct (Hact k x Hx) as [H|H]; [eauto|lia].
+Qed.
+
+(* identities allocated lie in [nid, snd (parse w nid)) *)
+Theorem parse_ids_range w nid : forall j, In j (all_ids (tbl (fst (parse w nid)))) -> nid <= j < snd (parse w nid).
+Proof.
+  intros j Hj. split; [|now apply parse_ids].
+  destruct (parse_wf w nid) as (H1 & _ & _). revert j Hj. apply (all_ids_active (fun j => nid <= j) _ H1).
+  rewrite parse_eq. cbv zeta. cbn [fst].
+  apply (parse_loop_ge (unformatted (tokenize false (Some [CH_m]) w)) nid (tokenize false (Some [CH_m]) w) 0
+           (mkA (unformatted (tokenize false (Some [CH_m]) w)) []) [] nid (PInv_init _ _) eq_refl (le_n _)).
+  intros k x [].
+Qed.
+
+(* ====================================================================================== *)
+(* 11. The terminal on the token list                                                        *)
+(* ====================================================================================== *)
+Fixpoint tk_run (t : tstate) (l : list tok) : list (char * tstate) * tstate :=
+  match l with
+  | [] => ([], t)
+  | TChar c :: r => let '(d, tf) := tk_run t r in ((c, t) :: d, tf)
+  | TSeq q :: r => tk_run (sgr_move t (cs_body q)) r
+  end.
+
+(* input hypotheses, as boolean predicates on the token list *)
+(* every accepted sequence body consists of digits and ';' only *)
+Definition numeric_toks (l : list tok) : bool :=
+  forallb (fun k => match k with TSeq q => numeric (cs_body q) | TChar _ => true end) l.
+(* no ESC [ is left as text, i.e. every ESC [ of the input starts a sequence terminated by m *)
+Fixpoint only_sgr (l : list tok) : bool :=
+  match l with
+  | [] => true
+  | TChar a :: r => match r with
+                    | TChar b :: _ => negb ((a =? ESC)%N && (b =? LBR)%N)
+                    | _ => true end && only_sgr r
+  | TSeq _ :: r => only_sgr r
+  end.
+
+Lemma tk_run_text t l : map fst (fst (tk_run t l)) = unformatted l.
+Proof.
+  revert t. induction l as [|[c|q] l IH]; intros t; [reflexivity| |].
+  - cbn [tk_run]. specialize (IH t). destruct (tk_run t l) as [d tf]. cbn [fst map] in *.
+    unfold unformatted in *. cbn [flat_map app]. now rewrite IH.
+  - cbn [tk_run]. rewrite IH. reflexivity.
+Qed.
+
+Theorem parse_loop_style text : forall l pos s cur nid t,
+  numeric_toks l = true ->
+  PInv s cur pos nid -> base s = text -> length text = pos + length (unformatted l) ->
+  (pos < length text -> teq t (as_t' cur)) ->
+  let s' := fst (fst (parse_fold text (seqs_flat l pos) (s, cur, nid))) in
+  forall j c tj, nth_error (fst (tk_run t l)) j = Some (c, tj) ->
+    teq tj (style_of (map stxt (active_at (tbl s') (pos + j)))).
+Proof.
+  induction l as [|[c|q] l IH]; intros pos s cur nid t Hnum Hinv Hb Hlen Ht s' j c0 tj Hj.
+  - destruct j; discriminate Hj.
+  - cbn [tk_run] in Hj. unfold s'. cbn [seqs_flat].
+    assert (Hl' : length text = Datatypes.S pos + length (unformatted l)).
+    { rewrite Hlen. unfold unformatted. cbn [flat_map app length]. lia. }
+    assert (Hinv' : PInv s cur (Datatypes.S pos) nid) by (eapply PInv_mono; eauto).
+    destruct (tk_run t l) as [d tf] eqn:Er. cbn [fst] in Hj. destruct j as [|j]; cbn [nth_error] in Hj.
+    + inversion Hj; subst c0 tj. rewrite Nat.add_0_r.
+      destruct (parse_loop_wf text l (Datatypes.S pos) s cur nid Hinv' Hb) as (_ & _ & _ & H4).
+      rewrite H4 by lia. apply teq_sym. eapply teq_trans.
+      * apply (PInv_style s cur pos nid pos Hinv). rewrite Hb. lia.
+      * apply teq_sym. apply Ht. lia.
+    + replace (pos + Datatypes.S j) with (Datatypes.S pos + j) by lia.
+      apply (IH (Datatypes.S pos) s cur nid t) with (c := c0); auto.
+      * intros H. apply Ht. lia.
+      * now rewrite Er.
+  - cbn [tk_run] in Hj. unfold s'. cbn [seqs_flat]. rewrite parse_fold_cons. cbn [fst snd].
+    cbn [numeric_toks forallb] in Hnum. apply andb_true_iff in Hnum as [Hq Hnum].
+    assert (Hl' : length text = pos + length (unformatted l)) by exact Hlen.
+    destruct (length text <=? pos) eqn:E.
+    + apply Nat.leb_le in E. apply (IH pos s cur nid (sgr_move t (cs_body q))) with (c := c0); auto. lia.
+    + apply Nat.leb_gt in E.
+      pose proof (parse_step_inv s cur pos (cs_body q) nid Hinv ltac:(now rewrite Hb)) as Hst. cbv zeta in Hst.
+      pose proof (numeric_params _ Hq) as Hp.
+      pose proof (parse_step_dict s cur pos (cs_body q) nid _ Hp ltac:(apply Hinv)) as Hd. cbv zeta in Hd.
+      destruct (parse_step s cur pos (cs_body q) nid) as [[s1 cur1] nid1]. cbn [fst snd] in Hst, Hd.
+      destruct Hst as (Hinv1 & Hn1 & Hb1 & Hlo1). destruct Hd as [Hd _].
+      apply (IH pos s1 cur1 nid1 (sgr_move t (cs_body q))) with (c := c0); auto; [congruence|].
+      intros _. unfold sgr_move. rewrite Hp. apply teq_sym. eapply teq_trans; [exact Hd|].
+      apply sgr_teq. apply teq_sym. now apply Ht.
+Qed.
+
+(* ---------- term_run and tokenize use the same scan ---------- *)
+Lemma span_body_same s : Terminal.span_body s = Tokenizer.span_body s.
+Proof.
+  induction s as [|c r IH]; [reflexivity|]. cbn [Terminal.span_body Tokenizer.span_body].
+  destruct (is_final c); [reflexivity|]. now rewrite IH.
+Qed.
+
+Lemma only_sgr_raw x : only_sgr (TChar ESC :: TChar LBR :: x) = false.
+Proof. reflexivity. Qed.
+
+Lemma term_tok_fuel : forall fuel s t, length s <= fuel ->
+  only_sgr (tokenize_fuel fuel false (Some [CH_m]) s) = true ->
+  term_run_fuel fuel t s = tk_run t (tokenize_fuel fuel false (Some [CH_m]) s).
+Proof.
+  induction fuel as [|f IH]; intros s t Hl Ho; [reflexivity|].
+  destruct s as [|c1 r1]; [reflexivity|]. cbn [term_run_fuel tokenize_fuel] in *.
+  destruct r1 as [|c2 r2]; [reflexivity|].
+  destruct ((c1 =? ESC)%N && (c2 =? LBR)%N) eqn:E.
+  - apply andb_true_iff in E as [E1 E2]. apply N.eqb_eq in E1, E2. subst c1 c2.
+    rewrite span_body_same. pose proof (span_body_len r2) as Hlen.
+    destruct (Tokenizer.span_body r2) as [b r3]. cbn [snd] in Hlen.
+    destruct r3 as [|fin r4].
+    + exfalso. cbn [accept andb map app] in Ho. rewrite only_sgr_raw in Ho. discriminate.
+    + unfold accept in Ho |- *. cbn [andb mem_char existsb] in Ho |- *. rewrite orb_false_r in Ho |- *.
+      destruct (fin =? CH_m)%N eqn:Ef.
+      * cbn [only_sgr] in Ho. cbn [tk_run cs_body]. unfold sgr_move.
+        apply IH; auto. cbn [length] in *. lia.
+      * exfalso. cbn [map app] in Ho. rewrite only_sgr_raw in Ho. discriminate.
+  - cbn [only_sgr] in Ho. apply andb_true_iff in Ho as [_ Ho]. cbn [tk_run].
+    rewrite IH; auto. cbn [length] in *. lia.
+Qed.
+
+Theorem term_tok_bridge' w t : only_sgr (tokenize false (Some [CH_m]) w) = true ->
+  term_run t w = tk_run t (tokenize false (Some [CH_m]) w).
+Proof. intros H. unfold term_run, tokenize in *. now apply term_tok_fuel. Qed.
+
+(* ====================================================================================== *)
+(* 12. C02, style clause                                                                     *)
+(* ====================================================================================== *)
+Theorem parse_style w nid :
+  let toks := tokenize false (Some [CH_m]) w in
+  numeric_toks toks = true -> only_sgr toks = true ->
+  let s := fst (parse w nid) in
+  let disp := fst (term_run tdefault w) in
+  map fst disp = base s
+  /\ forall i c ti, nth_error disp i = Some (c, ti) ->
+       teq ti (style_of (map stxt (active_at (tbl s) i))).
+Proof.
+  intros toks Hnum Hsgr s disp. unfold disp. rewrite (term_tok_bridge' w tdefault Hsgr). fold toks.
+  split.
+  - rewrite tk_run_text. unfold s. now rewrite parse_base.
+  - unfold s. rewrite parse_eq. cbv zeta. cbn [fst]. fold toks. intros i c ti Hi.
+    apply (parse_loop_style (unformatted toks) toks 0 (mkA (unformatted toks) []) [] nid tdefault Hnum
+             (PInv_init _ _) eq_refl eq_refl) with (j := i) (c := c); auto.
+    intros _ e. reflexivity.
+Qed.
+
+(* the same, indexed by the characters of the value *)
+Corollary parse_style_chars w nid :
+  let toks := tokenize false (Some [CH_m]) w in
+  numeric_toks toks = true -> only_sgr toks = true ->
+  let s := fst (parse w nid) in
+  let disp := fst (term_run tdefault w) in
+  forall i, i < length (base s) ->
+  exists c ti, nth_error disp i = Some (c, ti) /\ nth_error (base s) i = Some c
+               /\ teq ti (style_of (map stxt (active_at (tbl s) i))).
+Proof.
+  intros toks Hnum Hsgr s disp i Hi.
+  destruct (parse_style w nid Hnum Hsgr) as [H1 H2]. fold s disp in H1, H2.
+  assert (Hlen : i < length disp) by (rewrite <- (map_length fst), H1; exact Hi).
+  destruct (nth_error disp i) as [[c ti]|] eqn:E; [|apply nth_error_None in E; lia].
+  exists c, ti. split; auto. split; [|now apply (H2 i c)].
+  rewrite <- H1. now rewrite (map_nth_error fst i disp E).
+Qed.
+
+(* (c) in terms of to_effect: the entries of the dictionary and the active settings at [key] *)
+Corollary PInv_entries s cur key nid : PInv s cur key nid -> key < length (base s) ->
+  nodupk cur
+  /\ (forall e i t, dget cur e = Some (i, t) ->
+        In t (map stxt (active_at (tbl s) key)) /\ parsable t = true /\ effect_of t = Some e)
+  /\ (forall x, In x (active_at (tbl s) key) ->
+        exists e i, effect_of (stxt x) = Some e /\ dget cur e = Some (i, stxt x)).
+Proof.
+  intros (_ & _ & (Hnd & Hok) & H4 & _) Hk. destruct (H4 key ltac:(lia)) as [R1 R2].
+  split; [exact Hnd|]. split.
+  - intros e i t Hg. destruct (Hok e i t Hg) as [Hp Hkk]. split; [now apply (R2 e i)|]. split; auto.
+    now rewrite effect_of_tk, Hkk.
+  - intros x Hx. destruct (R1 x Hx) as (e & i & Hkk & Hg). exists e, i. split; auto. now rewrite effect_of_tk, Hkk.
+Qed.
+
+(* ====================================================================================== *)
+(* 13. Concrete instances: the hypotheses are satisfiable, and they are needed               *)
+(* ====================================================================================== *)
+Module ParseExamples.
+Import String.
+Local Open Scope string_scope.
+Local Open Scope list_scope.
+Definition s_ (x : string) : str := str_of_string x.
+Definition esc (x : string) : str := ESC :: LBR :: str_of_string x.
+Definition toks (w : str) := tokenize false (Some [CH_m]) w.
+
+(* executable form of the statement of parse_style *)
+Definition obs (w : str) := map (fun ct => (fst ct, tstate_obs (snd ct))) (fst (term_run tdefault w)).
+Definition mine (w : str) :=
+  let s := fst (parse w 0) in
+  map (fun i => (List.nth i (base s) 0%N, tstate_obs (style_of (map stxt (active_at (tbl s) i)))))
+      (seq 0 (List.length (base s))).
+Definition obs_eqb (x y : option (list N)) : bool :=
+  match x, y with None, None => true | Some p, Some q => list_eqb N.eqb p q | _, _ => false end.
+Definition agree (w : str) : bool :=
+  list_eqb (fun a b => N.eqb (fst a) (fst b) && list_eqb obs_eqb (snd a) (snd b)) (obs w) (mine w).
+
+Definition w1 := esc "1;31m" ++ s_ "a" ++ esc "22m" ++ s_ "b" ++ esc "0;4m" ++ s_ "c".
+Definition w2 := esc "38;5;1m" ++ s_ "a" ++ esc "38;5;2m" ++ s_ "b".
+(* several sequences at one index, and a sequence at the very end (ignored) *)
+Definition w3 := esc "1m" ++ esc "31m" ++ esc "22m" ++ s_ "ab" ++ esc "4m".
+(* a group that is set, cleared and set again inside one sequence; the empty body *)
+Definition w4 := esc "1m" ++ s_ "a" ++ esc "31;1;32;22;1m" ++ s_ "bc" ++ esc "m" ++ s_ "d" ++ esc "4m".
+(* leading zeros, empty parameters, cut-off and out-of-range colour groups, unknown codes *)
+Definition w5 := esc "001;;04m" ++ s_ "a" ++ esc "38;5m" ++ s_ "b" ++ esc "38;2;1;2m" ++ s_ "c"
+                 ++ esc "38;5;300;1m" ++ s_ "d" ++ esc "10m" ++ s_ "e" ++ esc "1;22;256;48;2;1;2;3;7m" ++ s_ "f".
+
+Example hyps_ok :
+  forallb (fun w => numeric_toks (toks w) && only_sgr (toks w)) [w1; w2; w3; w4; w5] = true.
+Proof. vm_compute. reflexivity. Qed.
+
+Example agree_ok : forallb agree [w1; w2; w3; w4; w5] = true.
+Proof. vm_compute. reflexivity. Qed.
+
+Example parse_w3 :
+  parse w3 100 = (mkA (s_ "ab") [(0, mkP [mkS 103 (s_ "31")] []); (2, mkP [] [mkS 103 (s_ "31")])], 105).
+Proof. vm_compute. reflexivity. Qed.
+
+(* pgs_str_numeric / parse_step_dict: a numeric body, a dictionary without duplicate keys *)
+Example numeric_ex : numeric (s_ "001;;04") = true /\ params_of (s_ "001;;04") = Some [1; 0; 4]%N
+  /\ pgs_str (s_ "001;;04") false = OK [s_ "1"; s_ "0"; s_ "4"].
+Proof. repeat split. Qed.
+
+Example dict_ex :
+  let cur : dict vset := [(BOLDNESS, (0, s_ "1"))] in
+  params_of (s_ "22;4") = Some [22; 4]%N /\ nodupk cur
+  /\ snd (fst (parse_step (mkA (s_ "ab") []) cur 0 (s_ "22;4") 5)) = [(UNDERLINE, (6, s_ "4"))].
+Proof. split; [reflexivity|]. split; [repeat constructor; intros []|vm_compute; reflexivity]. Qed.
+
+(* Rep_style: two effects, reported in the opposite order of the dictionary *)
+Example rep_ex :
+  let cur : dict vset := [(BOLDNESS, (0, s_ "1")); (FG_COLOR, (1, s_ "31"))] in
+  let L := [mkS 7 (s_ "31"); mkS 8 (s_ "1")] in
+  cur_ok cur /\ Rep cur L.
+Proof.
+  split; [split|split].
+  - repeat constructor; cbn; intuition discriminate.
+  - intros e i t H. destruct e; try discriminate H; inversion H; subst; split; vm_compute; reflexivity.
+  - intros x [<-|[<-|[]]]; [exists FG_COLOR, 1 | exists BOLDNESS, 0]; split; vm_compute; reflexivity.
+  - intros e i t H. destruct e; try discriminate H; inversion H; subst; vm_compute; auto.
+Qed.
+
+(* parse_step_inv / PInv_const / PInv_style: the state after one step is a non-trivial instance of the invariant *)
+Definition st1 := parse_step (mkA (s_ "ab") []) [] 0 (s_ "1;31") 5.
+Example inv_ex :
+  PInv (fst (fst st1)) (snd (fst st1)) 0 (snd st1) /\ 0 < List.length (base (fst (fst st1)))
+  /\ snd (fst st1) = [(BOLDNESS, (5, s_ "1")); (FG_COLOR, (6, s_ "31"))]
+  /\ active_at (tbl (fst (fst st1))) 1 = [mkS 7 (s_ "1"); mkS 8 (s_ "31")].
+Proof.
+  split; [apply (parse_step_inv (mkA (s_ "ab") []) [] 0 (s_ "1;31") 5 (PInv_init _ _)); cbn; lia|].
+  split; [vm_compute; lia|]. split; vm_compute; reflexivity.
+Qed.
+
+(* numeric_bodies is needed: for a body that is not [0-9;]* the terminal ignores the whole sequence,
+   while the code keeps the items int() can read.  ESC[1:3;4m : underline is set in the value only *)
+Definition wa := esc "1:3;4m" ++ s_ "a".
+Example non_numeric_differs :
+  numeric_toks (toks wa) = false /\ only_sgr (toks wa) = true
+  /\ match nth_error (fst (term_run tdefault wa)) 0 with Some (_, t) => t UNDERLINE | None => Some [] end = None
+  /\ style_of (map stxt (active_at (tbl (fst (parse wa 0))) 0)) UNDERLINE = Some [4%N].
+Proof. vm_compute. repeat split. Qed.
+
+(* ... int() is lenient: " +3" is read as 3 (italics) *)
+Definition wb := esc "1; +3m" ++ s_ "a".
+Example lenient_int_differs :
+  numeric_toks (toks wb) = false
+  /\ match nth_error (fst (term_run tdefault wb)) 0 with Some (_, t) => (t BOLDNESS, t ITALICS) | None => (None, None) end
+     = (None, None)
+  /\ (let st := style_of (map stxt (active_at (tbl (fst (parse wb 0))) 0)) in (st BOLDNESS, st ITALICS))
+     = (Some [1%N], Some [3%N]).
+Proof. vm_compute. repeat split. Qed.
+
+(* only_sgr is needed: a control sequence with another final byte (or an unterminated one) is swallowed
+   by the terminal but kept as text in the value *)
+Definition wc := esc "1A" ++ s_ "a" ++ esc "3m" ++ s_ "b".
+Definition wd := s_ "ab" ++ esc "1".
+Example not_only_sgr_differs :
+  numeric_toks (toks wc) = true /\ only_sgr (toks wc) = false
+  /\ map fst (fst (term_run tdefault wc)) = s_ "ab" /\ base (fst (parse wc 0)) = esc "1Aab"
+  /\ only_sgr (toks wd) = false
+  /\ map fst (fst (term_run tdefault wd)) = s_ "ab" /\ base (fst (parse wd 0)) = wd.
+Proof. vm_compute. repeat split. Qed.
+End ParseExamples.
+
+Print Assumptions pgs_str_numeric.
+Print Assumptions parse_step_unfold.
+Print Assumptions parse_step_dict.
+Print Assumptions Rep_style.
+Print Assumptions Rep_step.
+Print Assumptions PInv_init.
+Print Assumptions PInv_mono.
+Print Assumptions parse_step_inv.
+Print Assumptions PInv_style.
+Print Assumptions PInv_const.
+Print Assumptions PInv_entries.
+Print Assumptions parse_wf.
+Print Assumptions parse_ids.
+Print Assumptions parse_step_active_in.
+Print Assumptions parse_ids_range.
+Print Assumptions term_tok_bridge'.
+Print Assumptions parse_loop_style.
+Print Assumptions parse_style.
+Print Assumptions parse_style_chars.
